@@ -357,8 +357,13 @@ def check_states(run_params: Params, env: Env = None) -> bool:
                 state_backend.unset_root(root_params, state_object)
             state_backend.set_root(root_params, state_object)
             root_exists = True
-        else:
+        elif action_if_root_exists == "r":
             state_backend.get_root(root_params, state_object)
+        else:
+            raise exceptions.TestError(
+                f"Invalid policy {action_if_root_exists}: The root "
+                "existence action can be either of 'reuse' or 'force'."
+            )
 
         if state in ROOTS:
             state_exists = root_exists
